@@ -89,7 +89,10 @@ func knownPanic(p *panicInfo) string {
 
 // ---------------------------------------------------------------- keys
 
-var sigTime = time.Date(2025, 6, 1, 12, 0, 0, 0, time.UTC) // after every key's creation, before "now"
+// sigTime is the creation time used for every signature the harness asks the
+// package to make: just after the newest test key was created (gpg rejects
+// signatures older than the key and signatures from the future).
+var sigTime = time.Date(2025, 6, 1, 12, 0, 0, 0, time.UTC)
 var keyTime = time.Date(2024, 1, 2, 3, 4, 5, 0, time.UTC)
 
 type keyInfo struct {
@@ -205,6 +208,17 @@ func loadPool() (*keyPool, error) {
 				return
 			}
 			p.pubRing = append(p.pubRing, el[0])
+		}
+		for _, k := range p.keys {
+			ts := []time.Time{k.ent.PrimaryKey.CreationTime}
+			for _, sk := range k.ent.Subkeys {
+				ts = append(ts, sk.PublicKey.CreationTime, sk.Sig.CreationTime)
+			}
+			for _, t := range ts {
+				if t.Add(10 * time.Second).After(sigTime) {
+					sigTime = t.Add(10 * time.Second)
+				}
+			}
 		}
 		pool = p
 	})
